@@ -91,8 +91,9 @@ class _Helpers:
         if isinstance(f, ast.Name):
             if f.id in s.nested: return s.nested[f.id], False
             if f.id in s.mod and f.id.startswith("_"): return s.mod[f.id], False
-        if isinstance(f, ast.Attribute) and isinstance(f.value, ast.Name) and f.value.id in ("self", "cls", getattr(s, "cls_name", "")) and f.attr in s.cls and f.attr.startswith("_") and not f.attr.startswith("__"):
-            return s.cls[f.attr], True
+        if isinstance(f, ast.Attribute) and isinstance(f.value, ast.Name) and f.attr in s.cls and f.attr.startswith("_") and not f.attr.startswith("__"):
+            # a private method of the enclosing class, called on self/cls/the class, or on another local object of the class (e.g. a copy of self)
+            if f.value.id in ("self", "cls", getattr(s, "cls_name", "")) or f.attr not in s.mod: return s.cls[f.attr], True
         return None, False
 def _eligible(h, caller, max_stmts=40):
     if h is caller: return False
